@@ -1,1 +1,113 @@
-From LV Require Import Arb.ActionsModel.
+(* C12 — non-vacuity: the hypotheses of the property theorems are satisfied
+   by a concrete, non-trivial channel (six HTLCs over three commitments). *)
+From Coq Require Import List NArith ZArith Bool Lia.
+From LV Require Import Arb.ActionsModel Arb.ActionsProofs.
+Import ListNotations.
+Local Open Scope N_scope.
+
+Definition x_env : env :=
+  mkEnv 10 10 (fun i => N.eqb i 1) 0 14400 (fun h => N.eqb h 4).
+
+(* idx 1: offered, forwarded, output everywhere
+   idx 2: offered, dust everywhere
+   idx 3: received dust;  idx 4: received, preimage known
+   idx 5: offered, on the peer's commitments only (not yet on ours)
+   idx 6: offered, dust, on the peer's pending commitment only *)
+Definition x_local : list htlc :=
+  [mkHtlc 1 false 0 500 1; mkHtlc 2 false (-1) 600 2;
+   mkHtlc 3 true (-1) 700 3; mkHtlc 4 true 1 800 4].
+Definition x_remote : list htlc :=
+  [mkHtlc 1 false 20 500 1; mkHtlc 2 false (-1) 600 2;
+   mkHtlc 3 true (-1) 700 3; mkHtlc 4 true 21 800 4; mkHtlc 5 false 22 900 5].
+Definition x_pending : list htlc :=
+  x_remote ++ [mkHtlc 6 false (-1) 950 6].
+Definition x_sets : csets := mkSets x_local x_remote x_pending.
+Definition x_res : resolutions := mkRes false true true [21%Z] [20%Z; 22%Z].
+
+Ltac nodup_n :=
+  repeat (apply NoDup_cons;
+          [cbn; intuition discriminate|]);
+  apply NoDup_nil.
+
+Example x_wf : wf x_sets.
+Proof. unfold wf. cbn. repeat split; nodup_n. Qed.
+
+Example x_shape : local_sub_conf KRemote x_sets.
+Proof.
+  intros l I. cbn in I. cbn.
+  destruct I as [<-|[<-|[]]]; cbn; tauto.
+Qed.
+
+Example x_res_complete : res_complete x_res (conf_of KRemote x_sets).
+Proof.
+  intros h I D. cbn in I.
+  repeat (destruct I as [<-|I]; [cbn in D; first [discriminate D | reflexivity]|]). destruct I.
+Qed.
+
+Example x_due : due x_env (mkHtlc 1 false 0 500 1) 490.
+Proof. unfold due. cbn. repeat split; try lia; try (now left). Qed.
+
+Example x_due_received : due x_env (mkHtlc 4 true 1 800 4) 790.
+Proof. unfold due. cbn. repeat split; try lia; try reflexivity. Qed.
+
+Example x_must_fail_dust : must_fail x_env CRemote x_sets 2.
+Proof. left. exists (mkHtlc 2 false (-1) 600 2). cbn. tauto. Qed.
+
+Example x_must_fail_dangling : must_fail x_env CRemote x_sets 6.
+Proof.
+  right. split; [cbn; tauto|]. split.
+  - cbn. intuition discriminate.
+  - intros h I E. cbn in I.
+    repeat (destruct I as [<-|I]; [cbn in E; first [discriminate E | reflexivity]|]). destruct I.
+Qed.
+
+(* the trigger hypothesis of the broadcast-path theorems is satisfiable, for
+   both variants, by a block (cut-off of idx 1 = 490) and by a user request *)
+Example x_trigger_block :
+  match trigger_step false x_env false 490 x_sets with
+  | Some (a1, ef1) => f_force ef1 = 1 /\ f_fail ef1 = [2]
+  | None => False
+  end.
+Proof. vm_compute. split; reflexivity. Qed.
+
+Example x_trigger_user_fixed :
+  match trigger_step true x_env true 100 x_sets with
+  | Some (a1, ef1) => f_force ef1 = 1
+  | None => False
+  end.
+Proof. vm_compute. reflexivity. Qed.
+
+(* one block earlier nothing happens *)
+Example x_not_yet :
+  on_block false x_env arb0 489 x_sets = Some (arb0, no_eff).
+Proof. vm_compute. reflexivity. Qed.
+
+(* the whole run on the example: block 490 broadcasts and fails dust 2; the
+   peer's commitment confirms: contest/timeout resolvers for 1 and 5, incoming
+   contest for 4, received dust 3 closed out, nothing for pending-only dust 6
+   (the refuted conjunct) *)
+Example x_run :
+  match trigger_step false x_env false 490 x_sets with
+  | Some (a1, ef1) =>
+    match on_close false x_env a1 KRemote 495 x_sets x_res x_sets with
+    | Some (a2, ef2) =>
+      f_fail ef2 = [] /\ f_final ef2 = [3] /\
+      f_resolvers ef2 = [(RAnchor, 0); (RTimeout, 1); (RInContest, 4); (ROutContest, 5);
+                         (RCommit, 0)]
+    | None => False
+    end
+  | None => False
+  end.
+Proof. vm_compute. repeat split. Qed.
+
+(* with the candidate fix the same run fails 6 back *)
+Example x_run_fixed :
+  match trigger_step true x_env false 490 x_sets with
+  | Some (a1, ef1) =>
+    match on_close true x_env a1 KRemote 495 x_sets x_res x_sets with
+    | Some (a2, ef2) => f_fail ef1 = [2] /\ f_fail ef2 = [6]
+    | None => False
+    end
+  | None => False
+  end.
+Proof. vm_compute. repeat split. Qed.
